@@ -11,7 +11,7 @@ VARIABLE l
 Init == l = 1 /\ EInit
 
 Explained(e) ==
-  IF e.ev = "Begin" THEN Begin([kind |-> e.inp.kind, style |-> e.inp.style, prec |-> e.inp.prec])
+  IF e.ev = "Begin" THEN Begin([kind |-> e.inp.kind, style |-> e.inp.style, prec |-> e.inp.prec, bytes |-> e.inp.bytes])
   ELSE /\ e.ev = "Call"
        /\ Call(e.entry, e.res)
        /\ Agreement(inp, outs')          \* the property, after every call
